@@ -350,7 +350,11 @@ func propC19S3Dispatch(t veriflib.TB, b verifgen.S3Bucket) {
 			veriflib.Excluded(facet, "open finding "+c19KeyS3Mixed)
 			continue
 		}
-		veriflib.Fail(t, "C19", facet, b, hist, "S3 walk through postprocessItem never queued object %q of non-zero size; reached %d of %d objects in %d requests", k, len(reached), len(want), len(requests))
+		mixed := ""
+		if ref.MixedPage[k] {
+			mixed = " (it is listed on a page that also carries CommonPrefixes)"
+		}
+		veriflib.Fail(t, "C19", facet, b, hist, "S3 walk through postprocessItem never queued object %q of non-zero size%s; reached %d of %d objects in %d requests", k, mixed, len(reached), len(want), len(requests))
 	}
 	for k := range reached {
 		if !wantSet[k] {
